@@ -118,6 +118,30 @@ def _esc(s):
     return s.replace("&", "&amp;").replace("<", "&lt;").replace(">", "&gt;").replace('"', "&quot;")
 
 
+# How attributes are SPELLED in the math strings handed to the API (the tree is the same in every spelling):
+#   0  name="v"        1  name = "v"      2  name ="v"      3  name<newline>="v"     4  name='v'
+#   5  attributes in reverse order        6  the cellml namespace under another prefix (xmlns:cx), declared on the root
+#   7  the cellml namespace declared on the element that uses it (xmlns:k on the cn itself)     8  tab before and after '='
+SPELLING = 0
+N_SPELLINGS = 9
+
+
+def _attr(name, value):
+    v = _esc(value)
+    k = SPELLING
+    if k == 1:
+        return ' %s = "%s"' % (name, v)
+    if k == 2:
+        return ' %s ="%s"' % (name, v)
+    if k == 3:
+        return ' %s\n="%s"' % (name, v)
+    if k == 4:
+        return " %s='%s'" % (name, v.replace("&quot;", '"').replace("'", "&apos;"))
+    if k == 8:
+        return ' %s\t=\t"%s"' % (name, v)
+    return ' %s="%s"' % (name, v)
+
+
 def xml_text(x, top=True):
     if x[0] == "T":
         return _esc(x[1])
@@ -125,15 +149,19 @@ def xml_text(x, top=True):
         return "<!--" + x[1] + "-->"
     _, ns, name, attrs, kids = x
     s = "<" + name
+    cpre = "cx" if SPELLING == 6 else "cellml"
     if top:
-        s += ' xmlns="%s" xmlns:cellml="%s"' % (_esc(ns), CELLML_NS)
+        s += _attr("xmlns", ns) + _attr("xmlns:" + cpre, CELLML_NS)
     elif ns != MATHML_NS:
-        s += ' xmlns="%s"' % _esc(ns)
-    for (ans, an, av) in attrs:
+        s += _attr("xmlns", ns)
+    for (ans, an, av) in (reversed(attrs) if SPELLING == 5 else attrs):
         if ans == CELLML_NS:
-            s += ' cellml:%s="%s"' % (an, _esc(av))
+            if SPELLING == 7:
+                s += _attr("xmlns:k", CELLML_NS) + _attr("k:" + an, av)
+            else:
+                s += _attr(cpre + ":" + an, av)
         elif ans == "":
-            s += ' %s="%s"' % (an, _esc(av))
+            s += _attr(an, av)
         else:
             s += ' xmlns:q="%s" q:%s="%s"' % (_esc(ans), an, _esc(av))
     if not kids:
@@ -1979,4 +2007,83 @@ def chain_world(exps, fault_level=None, partner_wrong=False, prefixes=("", "mill
     c2.vars = [Var(12, "b", "flat", iface="public")]
     m.comps = [c1, c2]
     add_equivalence(m, 11, 12)
+    return [m]
+
+
+# ----------------------------------------------------------------------------------------------- directed MathML / connection worlds
+
+SWEEP_OPERATORS = OPS1 + OPS2 + OPSN2 + ["plus", "minus", "root", "log"]
+
+
+def arity_world(op, n, where):
+    """y = <apply><op/> x ... x</apply> with n operands, in the math of a component / a reset's test_value / reset_value"""
+    m = Model("arity")
+    c = Comp(1, "c")
+    c.vars = [Var(2, "x", "second"), Var(3, "y", "second")]
+    expr = E("apply", [E(op)] + [E("ci", [T("x")]) for _ in range(n)])
+    ok = E("math", [E("cn", [T("1")], [(CELLML_NS, "units", "second")])])
+    if where == "component":
+        c.math = [E("math", [E("apply", [E("eq"), E("ci", [T("y")]), expr])])]
+    else:
+        doc = E("math", [expr])
+        c.resets = [Reset(1, 2, 3, [doc] if where == "test_value" else [ok], [doc] if where == "reset_value" else [ok])]
+    m.comps = [c]
+    return [m]
+
+
+def spelling_worlds():
+    """(name, kind, cite, world): worlds whose math carries ids and cn attributes; used with every SPELLING"""
+    out = []
+    un = [(CELLML_NS, "units", "second")]
+
+    def base(cn_attrs, ci_id="", cn_id="", var_id="", math_id=""):
+        m = Model("spell")
+        c = Comp(1, "c")
+        c.vars = [Var(2, "x", "second", id=var_id), Var(3, "y", "second")]
+        cn = E("cn", [T("3")], list(cn_attrs) + ([("", "id", cn_id)] if cn_id else []))
+        ci = E("ci", [T("x")], [("", "id", ci_id)] if ci_id else [])
+        c.math = [E("math", [E("apply", [E("eq"), E("ci", [T("y")]), E("apply", [E("plus"), ci, cn])])], [("", "id", math_id)] if math_id else [])]
+        m.comps = [c]
+        return [m]
+    out.append(("ids-distinct", "valid", [], base(un + [("", "type", "real"), ("", "base", "10")], "i1", "i2", "i3", "i4")))
+    out.append(("id-ci-equals-cn", "fault", ["XML_ID_ATTRIBUTE", "MATH_MATHML"], base(un, "dup", "dup")))
+    out.append(("id-ci-equals-variable", "fault", ["XML_ID_ATTRIBUTE"], base(un, "dup", "", "dup")))
+    out.append(("id-math-equals-variable", "fault", ["XML_ID_ATTRIBUTE"], base(un, "", "", "dup", "dup")))
+    out.append(("cn-base-16", "fault", ["MATH_CN_BASE10"], base(un + [("", "base", "16")], "i1")))
+    out.append(("cn-type-rational", "fault", ["MATH_CN_FORMAT"], base(un + [("", "type", "rational")], "i1")))
+    out.append(("cn-units-missing", "fault", ["MATH_CN_UNITS_ATTRIBUTE_REFERENCE"], base([(CELLML_NS, "units", "nope"), ("", "type", "real")], "", "i2")))
+    out.append(("cn-units-absent", "fault", ["MATH_CN_UNITS_ATTRIBUTE"], base([("", "type", "real")], "", "i2")))
+    # the duplicate sits in a reset value
+    w = base(un, "", "", "dup")
+    ok = E("math", [E("cn", [T("1")], un + [("", "id", "dup")])])
+    w[0].comps[0].resets = [Reset(1, 2, 3, [ok], [E("math", [E("cn", [T("1")], un)])])]
+    out.append(("id-reset-value-cn-equals-variable", "fault", ["XML_ID_ATTRIBUTE"], w))
+    return out
+
+
+def eqlist_world(order_a, order_b, faulty):
+    """siblings: imported component I (placeholder variable w), A (a: second), B (b: metre when faulty, else second), C (c: an
+    alias of second).  a's equivalence list is order_a (a permutation of 'w','c','b'), b's list is order_b ('w','a' in some order)."""
+    m = Model("eqlist")
+    m.units = [Units("sec_alias", "", None, [Item("second", "milli")])]
+    imp = Comp(1, "I", imp=(ISrc(9, "lib.cellml"), "ref"))
+    A, B, C = Comp(2, "A"), Comp(3, "B"), Comp(4, "C")
+    imp.vars = [Var(11, "w", "second")]
+    A.vars = [Var(12, "a", "second", iface="public")]
+    B.vars = [Var(13, "b", "metre" if faulty else "second", iface="public")]
+    C.vars = [Var(14, "c", "sec_alias", iface="public")]
+    m.comps = [imp, A, B, C]
+    tag = {"w": 11, "a": 12, "b": 13, "c": 14}
+    # calls in an order that yields the wanted lists: b's entries that must precede 'a' in b's list come first
+    calls = []
+    pre_b = order_b[:order_b.index("a")]
+    for x in pre_b:
+        calls.append(("b", x))
+    for x in order_a:
+        calls.append(("a", x))
+    for x in order_b[order_b.index("a") + 1:]:
+        calls.append(("b", x))
+    for (p, q) in calls:
+        add_equivalence(m, tag[p], tag[q])
+    assert [e.to for e in A.vars[0].eqs] == [tag[x] for x in order_a] and [e.to for e in B.vars[0].eqs] == [tag[x] for x in order_b]
     return [m]
